@@ -472,7 +472,7 @@ var KnownOpen = map[string]bool{FindingSupersededResumed: true, FindingRollbackB
 
 // scaleBelowTrafficStep: partition style + provider + an integer step with traffic >= n.
 func (r *Run) scaleBelowTrafficStep(n int) bool {
-	if !KnownOpen[FindingScaleBelowTrafficStep] || os.Getenv("VERIF_REPLAY_STRICT") != "" || !propActive("C04") || !r.S.HasTraffic() || r.S.Style != "partition" {
+	if !KnownOpen[FindingScaleBelowTrafficStep] || os.Getenv("VERIF_REPLAY_STRICT") != "" || !r.S.HasTraffic() || r.S.Style != "partition" {
 		return false
 	}
 	ro := r.W.Rollout(r.S.Namespace, r.S.Name)
